@@ -133,6 +133,12 @@ def gen_detection(rng: Random, fields: list[str] | None = None, special: float =
         for _ in range(rng.randint(1, 3)):
             k, v = gen_item(rng, fields, special=special, table=table)
             d[k] = v
+        if chance(rng, 0.12):  # two items with the same modifier chain on different fields
+            k0 = next(iter(d))
+            chain = k0.split("|")[1:]
+            other = pick(rng, [f for f in (fields or FIELDS) if f != k0.split("|")[0]])
+            v0 = d[k0]
+            d["|".join([other] + chain)] = v0 if not isinstance(v0, str) else v0 + "2"
         return d
     if r < 0.80:  # list of maps
         out = []
@@ -296,7 +302,9 @@ TRANSFORMATION_KINDS = [
     "drop_detection_item", "change_logsource", "set_field", "add_field", "remove_field",
     "value_placeholders", "wildcard_placeholders", "rule_failure", "detection_item_failure",
     "nest", "case", "map_string", "set_value", "convert_type", "regex", "set_custom_attribute",
-    "query_expression_placeholders", "hashes_fields",
+    "query_expression_placeholders", "hashes_fields", "strict_field_mapping_failure", "field_name_mapping_chain",
+    # mappings whose targets are names that other rules use as source fields (staged mappings), weighted up
+    "field_name_mapping_swap", "field_name_mapping_swap", "field_name_mapping_swap", "strict_field_mapping_failure",
 ]
 
 
@@ -311,11 +319,22 @@ def gen_transformation(rng: Random, kind: str | None = None, idx: int = 0, depth
             t = {"type": "field_name_mapping", "mapping": {f: f"{tag}same" for f in fs}}
         else:
             t = {"type": "field_name_mapping", "mapping": {f: f"{tag}m.{f.lower()}" for f in fs}}
+    elif kind == "field_name_mapping_swap":  # field names mapped onto each other: a target is somebody's source
+        a, b, c = rng.sample(FIELDS, 3)
+        t = {"type": "field_name_mapping", "mapping": pick(rng, [{a: b}, {a: b, b: c}, {a: b, c: a}])}
+        t["rule_conditions"] = [{"type": "logsource", "product": pick(rng, PRODUCTS)}]
+    elif kind == "strict_field_mapping_failure":  # fails for rules with fields no earlier item mapped
+        t = {"type": "strict_field_mapping_failure"}
+    elif kind == "field_name_mapping_chain":  # second stage: maps the *targets* of field_name_mapping
+        fs = rng.sample(FIELDS, rng.randint(2, 4))
+        t = {"type": "field_name_mapping", "mapping": {f"{tag}m.{f.lower()}": f"{tag}c.{f}" for f in fs}}
     elif kind == "field_name_mapping_all_same":  # every field gets ONE name: duplicate keys afterwards
         t = {"type": "field_name_mapping", "mapping": {f: f"{tag}same" for f in FIELDS}}
     elif kind == "field_name_mapping_1n":
         f = pick(rng, FIELDS)
         t = {"type": "field_name_mapping", "mapping": {f: [f"{tag}n1.{f}", f"{tag}n2.{f}"]}}
+        if chance(rng, 0.4):  # a list with ONE target: still the one-to-many code path
+            t = {"type": "field_name_mapping", "mapping": {ff: [f"{tag}n1.{ff}"] for ff in rng.sample(FIELDS, 3)}}
     elif kind == "field_name_prefix":
         t = {"type": "field_name_prefix", "prefix": pick(rng, ["win.", "ecs.", "x_"]) if not tag else tag + "."}
     elif kind == "field_name_suffix":
@@ -387,7 +406,8 @@ def gen_transformation(rng: Random, kind: str | None = None, idx: int = 0, depth
         if chance(rng, 0.15):
             t["rule_cond_not"] = True
     if kind not in ("rule_failure", "set_state", "change_logsource", "set_field", "add_field",
-                    "remove_field", "nest", "add_condition", "set_custom_attribute"):
+                    "remove_field", "nest", "add_condition", "set_custom_attribute",
+                    "strict_field_mapping_failure"):
         if needs_cond or chance(rng, 0.3):
             if chance(rng, 0.6) or kind == "drop_detection_item":
                 t["field_name_conditions"] = [field_name_condition(rng)]
